@@ -4,6 +4,6 @@ func init() {
 	Properties["C02"] = &Property{
 		ID:          "C02",
 		Explanation: "tbd",
-		Rules:       []Rule{RuleB1, RuleDDiv, RuleCSparse, RuleFAcctTypes, RuleCStdout, RuleDDaysBeforeBuild, RuleDFlagInt, RuleDNilFlag},
+		Rules:       []Rule{RuleB1, RuleDDiv, RuleCSparse, RuleFAcctTypes, RuleCStdout, RuleDDaysBeforeBuild, RuleDFlagInt, RuleDNilFlag, RuleDRecursion, RuleCInfer, RuleCInferFresh, RuleKZeroFlow},
 	}
 }
